@@ -5,6 +5,7 @@ CONSTANTS MaxN = 3
   Drain = TRUE
   CollectN = {0, 1, 2, 100, 4095, 4096, 65535, 65536, 65537, 1048576}
   SlowMax = 5000
+  RecMaxDev = 2
 SPECIFICATION CSpec
 INVARIANTS NeverMoreThanCapPlusOne WriterNeverBroken ExactAtEnd
 PROPERTIES WriterFinishes CollectorFinishes
